@@ -613,6 +613,14 @@ class AsyncServer:
                         TimeoutError,
                     ):  # should be the first one, but official doc referrs to the second
                         raise ServerBacklogFull(len(pipeline), perf_counter() - t0)
+                    except asyncio.CancelledError:
+                        # This call is cancelled while waiting for a slot. It may have
+                        # been chosen by a `notify()` that it can no longer act on;
+                        # pass the wake-up on, otherwise another waiter could wait on
+                        # although a slot is free. (The lock is held again at this point;
+                        # a superfluous wake-up is harmless because waiters re-check.)
+                        self._pipeline_notfull.notify()
+                        raise
 
             # We can't accept situation that an entry is placed in `pipeline`
             # but not in `_input_buffer`, for that entry would be stuck in `pipeline`
